@@ -136,11 +136,14 @@ def check(ctx):
         e = S.peel(S.expand(pn, e))
         return e[0] == "field" and e[1][0] == "downcast" and e[1][2] == "ReadLength"
     full = S.rel_edges(pn, len_pos, lambda e: S.is_const(e, mlb, r"length_delimited::MAX_LEN_BYTES$"))
-    more = S.rel_edges(pn, lambda e: e[0] == "bin" and e[1] == "BitAnd" and (S.cval(e[2]) == 128 or S.cval(e[3]) == 128), lambda e: S.cval(e) == 0)
-    cont = more["ne"] | more["gt"]
+    more_p = (lambda e: e[0] == "bin" and e[1] == "BitAnd" and (S.cval(e[2]) == 128 or S.cval(e[3]) == 128), lambda e: S.cval(e) == 0)
+    more = S.rel_edges(pn, *more_p)
+    cont_closed = more["ne"] | more["gt"]
+    more = S.rel_edges(pn, *more_p, close=False)
+    cont = more["ne"] | more["gt"]          # the edges of the test itself (starting points of the path rule below)
     for s in errs:
         S.guarded(ctx, "prefix", "error when MAX_LEN_BYTES were read and more are announced", s, full["ge"], "pos == MAX_LEN_BYTES")
-        S.guarded(ctx, "prefix", "continuation bit set", s, cont, "(buf[pos-1] & 0x80) != 0")
+        S.guarded(ctx, "prefix", "continuation bit set", s, cont_closed, "(buf[pos-1] & 0x80) != 0")
     # after a byte with the continuation bit, another length byte is read only if fewer than MAX_LEN_BYTES were read:
     # every path from the continuation edge back to the state dispatch passes `pos < MAX_LEN_BYTES` (`!=` suffices: unit increments from 0)
     ctx.ob("prefix", "floor:continuation edge", len(cont) == 1, nontrivial=False, msg=str(sorted(cont)))
